@@ -16,6 +16,7 @@ import (
 	"errors"
 	"fmt"
 	"io"
+	"sync/atomic"
 )
 
 // cfb8 is AES/CFB8 (8-bit feedback), which the Minecraft protocol uses and Go lacks.
@@ -96,8 +97,12 @@ func encodeFrame(payload []byte, threshold int) []byte {
 }
 
 type byteReader struct {
-	r   io.Reader
-	dec *cfb8
+	r io.Reader
+	// dec is switched on from OnPacket (reader goroutine) or, for exchanges driven by the
+	// test goroutine, *before* the packet that makes the proxy start encrypting is sent; it
+	// is loaded after every underlying Read returns, so bytes that arrive afterwards are
+	// always decrypted and no interleaving reads ciphertext as plaintext.
+	dec atomic.Pointer[cfb8]
 	one [1]byte
 }
 
@@ -108,8 +113,8 @@ func (b *byteReader) ReadByte() (byte, error) {
 
 func (b *byteReader) Read(p []byte) (int, error) {
 	n, err := b.r.Read(p)
-	if n > 0 && b.dec != nil {
-		b.dec.xor(p[:n], p[:n])
+	if dec := b.dec.Load(); n > 0 && dec != nil {
+		dec.xor(p[:n], p[:n])
 	}
 	return n, err
 }
